@@ -276,3 +276,78 @@ type Mixed struct {
 }
 
 var _ = Mixed{}.hidden
+
+// CustomP16 implements its codec ONLY on the pointer type (Encode, Decode, EncodeJSON and DecodeJSON all have pointer
+// receivers) and is held by value: the decoder reaches the methods through the address of the value, so the encoder
+// has to do the same. Wire form: 2 bytes little-endian of V^0xA5A5 - not what reflection writes for the struct.
+type CustomP16 struct{ V uint16 }
+
+// Encode implements serix.Serializable (pointer receiver).
+func (c *CustomP16) Encode() ([]byte, error) {
+	x := c.V ^ 0xA5A5
+
+	return []byte{byte(x), byte(x >> 8)}, nil
+}
+
+// Decode implements serix.Deserializable.
+func (c *CustomP16) Decode(b []byte) (int, error) {
+	if len(b) < 2 {
+		return 0, errors.New("CustomP16: not enough data")
+	}
+	c.V = (uint16(b[0]) | uint16(b[1])<<8) ^ 0xA5A5
+
+	return 2, nil
+}
+
+// EncodeJSON implements serix.SerializableJSON (pointer receiver).
+func (c *CustomP16) EncodeJSON() (any, error) { return fmt.Sprintf("p16:%d", c.V), nil }
+
+// DecodeJSON implements serix.DeserializableJSON.
+func (c *CustomP16) DecodeJSON(v any) error {
+	s, ok := v.(string)
+	if !ok {
+		return errors.New("CustomP16: expected string")
+	}
+	var n uint16
+	if _, err := fmt.Sscanf(s, "p16:%d", &n); err != nil {
+		return err
+	}
+	c.V = n
+
+	return nil
+}
+
+// CustomPR is a custom (de)serializable that is held through a pointer and whose type settings (an object code) are
+// registered under the POINTER type. Wire form after the code: 1 byte V^0x5A.
+type CustomPR struct{ V uint8 }
+
+// Encode implements serix.Serializable.
+func (c *CustomPR) Encode() ([]byte, error) { return []byte{c.V ^ 0x5A}, nil }
+
+// Decode implements serix.Deserializable.
+func (c *CustomPR) Decode(b []byte) (int, error) {
+	if len(b) < 1 {
+		return 0, errors.New("CustomPR: not enough data")
+	}
+	c.V = b[0] ^ 0x5A
+
+	return 1, nil
+}
+
+// EncodeJSON implements serix.SerializableJSON.
+func (c *CustomPR) EncodeJSON() (any, error) { return fmt.Sprintf("pr:%d", c.V), nil }
+
+// DecodeJSON implements serix.DeserializableJSON.
+func (c *CustomPR) DecodeJSON(v any) error {
+	s, ok := v.(string)
+	if !ok {
+		return errors.New("CustomPR: expected string")
+	}
+	var n uint8
+	if _, err := fmt.Sscanf(s, "pr:%d", &n); err != nil {
+		return err
+	}
+	c.V = n
+
+	return nil
+}
